@@ -84,7 +84,7 @@ def scenarios(tier: str) -> list[tuple]:
         if tier == "quick":
             bound = 2 if cfg == "mem" else 1
         else:
-            bound = 2 if slow else 3
+            bound = 3 if cfg == "mem" else 2  # (bound 3 on jlist / grpc(mem): ~5*10^4 schedules per pair, hours in total)
         names_cfg = NAMES if (cfg == "mem" or tier == "thorough") else QUICK_NAMES
         for i, a in enumerate(names_cfg):
             for b in names_cfg[i:]:
@@ -108,7 +108,8 @@ def scenarios(tier: str) -> list[tuple]:
         b2 = 1 if tier == "quick" else 2
         if tier == "thorough" or not slow:
             for p in two + three:
-                out.append((cfg, p, b2))
+                # (three threads over SQLite at bound 2: a single scenario runs for ~40 minutes)
+                out.append((cfg, p, 1 if (slow and len(p) == 3) else b2))
         # a thread reads right after its own write while another thread's read is in flight: a
         # stale refresh result must not overwrite the newer cached one (needs two pre-emptions)
         for sh in range(12 if slow else 1):
@@ -436,7 +437,7 @@ def run(tier: str, replay: str | None = None) -> int:
     return ctx.finish(
         exhaustive=not ctx.cov.get("caps_hit"),
         rule="all schedules up to the preemption bound of every unordered pair of the 19-op alphabet (2 threads x 1 op) plus curated 2x2 and 3x1 programs, per configuration; states = distinct observable outcomes",
-        extra={"preemption_bound": {"quick": "pairs: mem 2, jlist/grpc(mem)/cached 1; 2x2 and 3x1 programs: 1", "thorough": "pairs: 3 (cached 2); 2x2/3x1: 2"}[tier]},
+        extra={"preemption_bound": {"quick": "pairs: mem 2, jlist/grpc(mem)/cached 1; 2x2 and 3x1 programs: 1", "thorough": "pairs: mem 3, others 2; 2x2/3x1: 2 (cached 3x1: 1)"}[tier]},
     )
 
 
